@@ -122,7 +122,9 @@ def line_case(draw, cid, seeds):
         "mask": draw(st.lists(st.booleans(), min_size=8, max_size=8)),
         # absolute spellings are only promised (and pinned by the repository's test utilities) for excludes:
         # file selection by include patterns works on relative paths
-        "spelling": draw(st.sampled_from(SPELLINGS)),
+        "spelling": draw(st.sampled_from(SPELLINGS + ["mixed"])),
+        # "mixed": every line pattern of the list gets its own spelling (`*.py:2,src/m0.py:6`)
+        "spell_each": draw(st.lists(st.sampled_from(SPELLINGS), min_size=8, max_size=8)),
         "with_file_pattern": draw(st.booleans()),
         # a second file whose path ends in the same components (vendor/src/m0.py): a relative or absolute pattern for
         # src/m0.py must not apply to it
@@ -193,10 +195,23 @@ def eval_case(case, stats=None):
     with runner.scratch("c13f") as rf:
         root = Path(rf)
         proj = root / "proj"
-        spelling = case["spelling"] if not (case["mode"] == "include" and case["spelling"] == "absolute") else "relative"
-        pat = spell(spelling, proj, rel)
+        def legal(sp):
+            return sp if not (case["mode"] == "include" and sp == "absolute") else "relative"
+
+        spelling = legal(case["spelling"])
         opt = "--path-exclude" if case["mode"] == "exclude" else "--path-include"
-        items = [f"{pat}:{l}" for l in chosen]
+        if spelling == "mixed":
+            each = [legal(sp) for sp in (case.get("spell_each") or SPELLINGS * 2)]
+            # at least one spelling that matches only the relative name and one that also matches the absolute name
+            used = each[: max(2, len(chosen))]
+            if "relative" not in used:
+                each[0] = "relative"
+            if not [sp for sp in each[: max(2, len(chosen))] if sp != "relative"]:
+                each[1] = "star"
+            items = [f"{spell(each[i % len(each)], proj, rel)}:{l}" for i, l in enumerate(chosen)]
+        else:
+            pat = spell(spelling, proj, rel)
+            items = [f"{pat}:{l}" for l in chosen]
         if case["with_file_pattern"]:
             # a file-level pattern that does not change which files are selected
             items = items + (["zz_nothing/*"] if case["mode"] == "exclude" else [])
